@@ -62,6 +62,7 @@ func VerifC08Rotate() {
 		vf.And(vf.And(vf.TimeEq(oNNB, loaded.Next.NotBefore.AsTime()), vf.TimeEq(oNNA, loaded.Next.NotAfter.AsTime())),
 			vf.And(vf.EqBytes(out.Current.PublicKeyPkix, loaded.Current.PublicKeyPkix), vf.EqBytes(out.Next.PublicKeyPkix, loaded.Next.PublicKeyPkix)))))
 	vf.Assert("labels", vf.And(out.Current.Id == "current", out.Next.Id == "next"))
+	vf.Assert("stored-labels", vf.And(loaded.Current.Id == "current", loaded.Next.Id == "next"))
 
 	// what happened, observed from the keys
 	keptCur := vf.EqBytes(out.Current.PublicKeyPkix, vf.Pkix(0))
